@@ -57,7 +57,9 @@ PushTok(L, s, pos, tok, thr, linking) ==
                LET s2 == NumberEnd(L, s1, thr)
                    r2 == ParserPush(L, s2.parser, tok.lower)
                    s3 == [s2 EXCEPT !.parser = r2.p]
-               IN IF r2.st = "ok" THEN [s3 EXCEPT !.tracker = Advanced(@, pos)] ELSE Outside(L, s3, tok, linking)
+               IN IF r2.st = "ok" THEN [s3 EXCEPT !.tracker = Advanced(@, pos)]
+                  ELSE IF r2.st = "incomplete" THEN s3          \* repaired: a linking word restarting the parser is skipped
+                  ELSE Outside(L, s3, tok, linking)
           ELSE Outside(L, s1, tok, linking)
 Finalize(L, s, thr) == IF HasNumber(s.parser) THEN NumberEnd(L, s, thr) ELSE s
 
